@@ -1,13 +1,16 @@
 """C18 — inventory resolution returns a maximal matching artifact; checksums round-trip.
 
-Decided structurally:
-  R1 sibling filters  resolve and partial_resolve filter with the same conjunction:
+Decided on a spelling-independent model of both resolvers (C18_helpers.select_model: iterator adapters, private helpers
+around them and explicit accumulating loops reduce to the same description; decisions are CFG paths with private boolean
+helpers / closures / Option combinators expanded):
+  R1 sibling filters  an element of self.artifacts reaches the selection step exactly when
                       artifact.os == os && artifact.arch == arch && satisfies_version(&artifact.version) &&
-                      satisfies_metadata(&artifact.metadata)
-  R2 selection        resolve = filter(..).max_by_key(|a| &a.version); partial_resolve folds with the table
+                      satisfies_metadata(&artifact.metadata), in resolve and in partial_resolve alike
+  R2 selection        resolve = max_by_key(.version) or the equivalent accumulation (first match seeds, a later element
+                      replaces unless the current one is strictly greater); partial_resolve accumulates with the table
                       None -> item, Some(acc) & cmp(item, acc) in {Greater, Equal} -> item, otherwise -> acc,
-                      both keys being `.version`; the fold starts from None, so None is returned only for an
-                      empty filtered sequence
+                      both keys being `.version`; the accumulator starts from None and the whole sequence is visited,
+                      so None is returned only for an empty filtered sequence
   R3 checksum acceptor Ok(Checksum{..}) only under name_compatible(name) && length_compatible(decoded length);
                       name / value come from split_once(':') with the hex-decode error propagated
   R4 codec pair       Serialize = "{name}:{hex::encode(value)}", Deserialize = String -> parse;
@@ -15,6 +18,8 @@ Decided structurally:
   R5 digest impls     Sha256 <-> "sha256" / output_size(); Sha512 <-> "sha512" / output_size()
 Not decided: maximality for unlawful PartialOrd impls; TOML round-trip equality (toml, hex crates).
 """
+from . import C18_helpers as H
+from .lib.guards import conditions_gated
 from .lib.paths import strip
 from .lib.tables import arm_defs
 from .lib.value import vstr, walk
@@ -23,48 +28,16 @@ INV = r'^libherokubuildpack::inventory::Inventory::<V, D, M>::'
 CK = 'libherokubuildpack::inventory::checksum::'
 
 
-def filter_conjunction(prog, sl, f):
-    """set of normalised tests that must all hold for a filter closure to return true.  Handles `a && b && c && d`,
-    early `return false` on `x != y`, and a final `true` literal: every non-false return site contributes the boolean
-    decisions dominating it (with `ne == false` read as `eq == true`) plus its own value; all such sites must agree"""
-    per_site = []
-    for bi, v, conds in arm_defs(f, 0, sl):
-        v0 = strip(v)
-        if v0 == ('const', False):
-            continue
-        tests = []
-        for cd in conds:
-            if cd.kind != 'bool':
-                continue
-            t = strip(cd.value)
-            if t[0] != 'call':
-                return None
-            name = t[1].split('::')[-1]
-            if name == 'ne' and cd.outcome is False:
-                name = 'eq'
-            elif cd.outcome is not True:
-                return None
-            tests.append((name, t[2]))
-        if v0 != ('const', True):
-            if v0[0] != 'call':
-                return None
-            tests.append((v0[1].split('::')[-1], v0[2]))
-        out = set()
-        for name, targs in tests:
-            args = []
-            for a in targs:
-                a = strip(a)
-                if a[0] == 'field':
-                    args.append('artifact.' + a[2])
-                elif a[0] in ('param', 'upvar'):
-                    args.append('captured')
-                else:
-                    args.append(vstr(a)[:30])
-            out.add((name,) + tuple(sorted(args)))
-        per_site.append(out)
-    if not per_site or any(x != per_site[0] for x in per_site):
-        return None if not per_site else frozenset().union(*per_site) if False else (per_site[0] if all(x == per_site[0] for x in per_site) else None)
-    return per_site[0]
+def _none_opt(v):
+    return v[0] == 'agg' and v[2] == 'None'
+
+
+def carried_values(prog, sl, v, depth=0):
+    """v and everything a closure inside v returns (closures handed to and_then / map run on the same result)"""
+    for x in walk(v):
+        yield x
+        if x[0] == 'closure' and depth < 4 and x[1] in prog.fns:
+            yield from carried_values(prog, sl, sl.inline_deep(sl.local(prog.fns[x[1]], 0)), depth + 1)
 
 
 def run(ctx, rep):
@@ -78,112 +51,103 @@ def run(ctx, rep):
     for f in (res, pres):
         rep.analysed(f)
     w = lambda f: '%s:%d' % (f.file, f.line)
-    want = {('eq', 'artifact.os', 'captured'), ('eq', 'artifact.arch', 'captured'), ('satisfies_version', 'artifact.version', 'captured'), ('satisfies_metadata', 'artifact.metadata', 'captured')}
-    filt = {}
+    # Both resolvers are reduced to one model (C18_helpers): which collection is visited, under which tests an element
+    # is handed to the selection step, how the accumulator starts, and what the step picks for every combination of
+    # (accumulator empty / filled) x (outcome of comparing the element's key with the accumulator's key).  The model is
+    # the same for iterator adapters, private helpers around them, and explicit loops.
+    want = {('eq', '$1', 'artifact.os'), ('eq', '$2', 'artifact.arch'), ('satisfies_version', '$3', 'artifact.version'), ('satisfies_metadata', '$3', 'artifact.metadata')}
+    filt, models = {}, {}
     for f in (res, pres):
-        v = strip(sl.local(f, 0))
-        fl = next((x for x in walk(v) if x[0] == 'call' and x[1] == 'std::iter::Iterator::filter'), None)
-        if fl is None:
-            rep.unproven('R1', f.path.split('::')[-1], w(f), 'no filter adapter found')
-            continue
-        src = strip(fl[2][0])
-        src_ok = src[0] == 'call' and src[1] == 'core::slice::<impl [T]>::iter' and strip(src[2][0])[0] == 'field' and strip(src[2][0])[2] == 'artifacts'
-        cl = strip(fl[2][1])
-        body = prog.fns.get(cl[1]) if cl[0] == 'closure' else None
-        conj = filter_conjunction(prog, sl, body) if body else None
-        filt[f.path] = conj
         short = f.path.split('::')[-1]
-        rep.check(src_ok and conj == want, 'R1', short, w(f), 'filters self.artifacts by os, arch, version requirement and metadata requirement',
-                  '%s filters with %s (expected the four tests %s)' % (short, sorted(conj) if conj else conj, sorted(want)))
-        # captured values are the query parameters
-        caps = [strip(x) for x in cl[2]] if cl[0] == 'closure' else []
-        rep.check(sorted(x[2] for x in caps if x[0] == 'param') == [1, 2, 3], 'R1', short + '/captures', w(f), 'the filter closes over (os, arch, requirement)', 'filter closure captures %s' % [vstr(x) for x in caps])
+        md = H.select_model(prog, sl, f)
+        models[f.path] = md
+        if md is None or (md.coll is None and not md.stages):
+            rep.unproven('R1', short, w(f), 'no filter found: %s' % ('; '.join(md.problems) if md else 'neither an iterator pipeline nor an accumulating loop'))
+            continue
+        for g in md.fns:
+            rep.analysed(g)
+        try:
+            conj, probs = H.predicate_of(md, f)
+        except H.Giveup as e:
+            conj, probs = None, [str(e)]
+        struct = [p for p in md.problems if 'iterat' in p]
+        src = strip(md.coll) if md.coll is not None else ('unknown',)
+        src_ok = src[0] == 'field' and src[2] == 'artifacts' and strip(src[1])[0] == 'param' and strip(src[1])[1] == f.path and strip(src[1])[2] == 0
+        filt[f.path] = frozenset(conj) if conj is not None and not probs else None
+        rep.check(src_ok and not struct and not probs and conj == want, 'R1', short, w(f), 'filters self.artifacts by os, arch, version requirement and metadata requirement',
+                  '%s filters %s with %s (expected the four tests %s)%s' % (short, vstr(src)[:40], sorted(conj) if conj else conj, sorted(want), ''.join('; ' + p for p in (struct + probs)[:3])))
+        # the values the element is tested against are the query parameters
+        caps = sorted({a for t in (conj or ()) for a in t[1:] if a.startswith('$')})
+        rep.check(caps == ['$1', '$2', '$3'], 'R1', short + '/captures', w(f), 'the filter tests against (os, arch, requirement)', 'filter tests against %s' % caps)
     if len(filt) == 2:
         a, b = list(filt.values())
-        rep.check(a == b and a is not None, 'R1', 'agreement', w(pres), 'both resolvers use the identical predicate set', 'resolve and partial_resolve disagree: %s vs %s' % (a, b))
+        rep.check(a == b and a is not None, 'R1', 'agreement', w(pres), 'both resolvers use the identical predicate set', 'resolve and partial_resolve disagree: %s vs %s' % (a and sorted(a), b and sorted(b)))
     # ---- R2 ------------------------------------------------------------------------------------------
-    v = strip(sl.local(res, 0))
-    ok = v[0] == 'call' and v[1] == 'std::iter::Iterator::max_by_key' and strip(v[2][0])[0] == 'call' and strip(v[2][0])[1] == 'std::iter::Iterator::filter'
-    if ok:
-        kc = strip(v[2][1])
-        body = prog.fns.get(kc[1]) if kc[0] == 'closure' else None
-        kv = strip(sl.local(body, 0)) if body else ('unknown',)
-        ok = kv[0] == 'field' and kv[2] == 'version' and strip(kv[1])[0] == 'param'
-    rep.check(ok, 'R2', 'resolve/max_by_key', w(res), 'filter(..).max_by_key(|a| &a.version)', 'resolve selection is ' + vstr(v)[:120])
-    v = strip(sl.local(pres, 0))
-    helper = prog.fns.get(v[1]) if v[0] == 'call' else None
-    ok = helper is not None and strip(v[2][0])[0] == 'call' and strip(v[2][0])[1] == 'std::iter::Iterator::filter'
-    if ok:
-        kc = strip(v[2][1])
-        body = prog.fns.get(kc[1]) if kc[0] == 'closure' else None
-        kv = strip(sl.local(body, 0)) if body else ('unknown',)
-        ok = kv[0] == 'field' and kv[2] == 'version'
-    rep.check(ok, 'R2', 'partial/key', w(pres), 'partial fold over the filtered artifacts keyed by .version', 'partial_resolve selection is ' + vstr(v)[:120])
-    if helper is not None:
-        rep.analysed(helper)
-        hv = strip(sl.local(helper, 0))
-        ok = hv[0] == 'call' and hv[1] == 'std::iter::Iterator::fold' and strip(hv[2][0])[0] == 'param' and strip(hv[2][1])[0] == 'agg' and strip(hv[2][1])[2] == 'None'
-        rep.check(ok, 'R2', 'partial/fold-init', w(helper), 'fold starts from None over the whole iterator', 'fold shape: ' + vstr(hv)[:100])
-        fc = strip(hv[2][2]) if ok else ('unknown',)
-        fb = prog.fns.get(fc[1]) if fc[0] == 'closure' else None
-        if fb is None:
-            rep.unproven('R2', 'partial/fold-table', w(helper), 'fold closure not found')
-        else:
-            rep.analysed(fb)
-            rows = []
-            cmp_ok = True
-            for bi, val, conds in arm_defs(fb, 0, sl):
-                val = strip(val)
-                pick = None
-                if val[0] == 'agg' and val[2] == 'Some':
-                    inner = strip(dict(val[3])['0'])
-                    pick = 'item' if inner[0] == 'param' and inner[1] == fb.path and inner[2] == 2 else \
-                        ('acc' if any(x[0] == 'param' and x[1] == fb.path and x[2] == 1 for x in walk(dict(val[3])['0'])) else '?')
-                dec = []
-                for cd in conds:
-                    if cd.kind != 'variant':
-                        continue
-                    s = strip(cd.subject)
-                    if s[0] == 'param' and s[2] == 1:
-                        dec.append(('acc', tuple(sorted(cd.outcome))))
-                    elif cd.enum == 'std::cmp::Ordering':
-                        dec.append(('ord', tuple(sorted(cd.outcome))))
-                        pc = next((x for x in walk(cd.subject) if x[0] == 'call' and x[1] == 'std::cmp::PartialOrd::partial_cmp'), None)
-                        if pc is not None:
-                            l, r = strip(pc[2][0]), strip(pc[2][1])
-                            isp = lambda x, i: x[0] == 'param' and x[1] == fb.path and x[2] == i
-                            l_item = any(isp(x, 2) for x in walk(l)) and not any(isp(x, 1) for x in walk(l))
-                            r_acc = any(isp(x, 1) for x in walk(r)) and not any(isp(x, 2) for x in walk(r))
-                            keyed = all(any(x[0] in ('call',) and x[1].endswith('Fn::call') for x in walk(y)) for y in (l, r))
-                            cmp_ok = cmp_ok and l_item and r_acc and keyed
-                        else:
-                            cmp_ok = False
-                rows.append((pick, tuple(dec)))
-            rep.extra['partial_fold_table'] = [list(map(str, r)) for r in rows]
-            want_rows = {('item', (('acc', ('None',)),)), ('item', (('acc', ('Some',)), ('ord', ('Equal', 'Greater')))), ('acc', (('acc', ('Some',)),))}
-            alt_rows = {('item', (('acc', ('None',)),)), ('item', (('acc', ('Some',)), ('ord', ('Greater',)))), ('acc', (('acc', ('Some',)),))}
-            rep.check(set(rows) in (want_rows, alt_rows) and cmp_ok, 'R2', 'partial/fold-table', w(fb), 'None -> item; Greater(/Equal) -> item; Less / incomparable -> acc; compares key(item) with key(acc)',
-                      'partial fold table is %s (cmp operands ok: %s)' % (rows, cmp_ok))
+    key_item = ('field', H.ITEM, 'version')
+    md = models.get(res.path)
+    ok, why = False, 'selection not understood'
+    if md is not None and md.kind == 'max_by_key':
+        ok = md.key is not None and strip(md.key) == key_item and not md.problems
+        why = 'max_by_key keyed by %s%s' % (H.show(md.key) if md.key else None, ''.join('; ' + p for p in md.problems[:2]))
+    elif md is not None and md.kind == 'table':
+        # what std's max_by_key does: the first element seeds, a later element replaces unless the current one is greater
+        uni = sorted(H.FULL_T)
+        table, orient, probs = H.eval_table(md, uni)
+        ok = md.init_none and not probs and not md.problems and table == H.expected_table(uni)
+        why = 'starts from None: %s; table %s%s' % (md.init_none, H.table_str(table), ''.join('; ' + p for p in (probs + md.problems)[:3]))
+    elif md is not None:
+        why = 'resolve selects with %s' % md.kind
+    rep.check(ok, 'R2', 'resolve/max_by_key', w(res), 'filter(..).max_by_key(|a| &a.version) (or the equivalent accumulation)', 'resolve selection: ' + why[:300])
+    md = models.get(pres.path)
+    if md is None or md.kind != 'table':
+        rep.check(False, 'R2', 'partial/key', w(pres), '', 'partial_resolve selection is %s' % (vstr(strip(sl.local(pres, 0)))[:120] if md is None or md.form != 'loop' else md.kind))
+    else:
+        uni = sorted(H.FULL_P)
+        table, orient, probs = H.eval_table(md, uni)
+        keyp = [p for p in probs if p.startswith('compares')]
+        rep.check(bool(orient) and not keyp, 'R2', 'partial/key', w(pres), 'partial selection over the filtered artifacts compares .version of the element with .version of the accumulator',
+                  'partial_resolve selection is not keyed by .version: %s' % (keyp[:2] or 'no comparison found'))
+        whole = not [p for p in md.problems if 'iterat' not in p]
+        rep.check(bool(md.init_none) and whole, 'R2', 'partial/fold-init', w(pres), 'accumulation starts from None and runs over the whole sequence',
+                  'accumulation shape: starts from None: %s%s' % (md.init_none, ''.join('; ' + p for p in md.problems[:3])))
+        rep.extra['partial_fold_table'] = H.table_str(table)
+        cmp_ok = orient <= {('partial', 'item-left')}
+        good = table in (H.expected_table(uni), H.expected_table(uni, equal_keeps_acc=True))
+        rep.check(good and cmp_ok and not probs, 'R2', 'partial/fold-table', w(pres), 'None -> item; Greater(/Equal) -> item; Less / incomparable -> acc; compares key(item) with key(acc)',
+                  'partial fold table is %s (cmp operands ok: %s)%s' % (H.table_str(table), cmp_ok, ''.join('; ' + p for p in probs[:3])))
     # ---- R3 ------------------------------------------------------------------------------------------
     fs = prog.fn('<%sChecksum<D> as std::str::FromStr>::from_str' % CK)
     rep.analysed(fs)
     oks = [(bi, v, c) for bi, v, c in arm_defs(fs, 0, sl) if strip(v)[0] == 'agg' and strip(v)[2] == 'Ok']
-    good = len(oks) == 1
-    if good:
-        bi, v, conds = oks[0]
-        ck = strip(dict(strip(v)[3])['0'])
+    good = len(oks) >= 1
+    val_v = ('unknown',)
+    for bi, v, conds in oks:
+        ck = strip(sl.inline_deep(dict(strip(v)[3])['0']))
         fl = dict(ck[3]) if ck[0] == 'agg' else {}
         name_v, val_v = fl.get('name', ('unknown',)), fl.get('value', ('unknown',))
         split_ok = all(any(x[0] == 'call' and x[1] == 'core::str::<impl str>::split_once' and strip(x[2][1]) == ('const', ':') for x in walk(y)) for y in (name_v, val_v))
-        nm = [cd for cd in conds if cd.kind == 'bool' and cd.value[0] == 'call' and cd.value[1].endswith('Digest::name_compatible') and cd.outcome is True]
-        ln = [cd for cd in conds if cd.kind == 'bool' and cd.value[0] == 'call' and cd.value[1].endswith('Digest::length_compatible') and cd.outcome is True]
-        ln_ok = bool(ln) and strip(ln[0].value[2][0])[0] == 'call' and strip(ln[0].value[2][0])[1].endswith('::len')
-        good = split_ok and bool(nm) and ln_ok
+        # the guards as written and with private boolean helpers looked through (Cond.views)
+        views = [(tv, oc) for cd in conditions_gated(prog, fs, bi, sl) if cd.kind == 'bool' for tv, oc in cd.views()]
+        nm = [tv for tv, oc in views if tv[0] == 'call' and tv[1].endswith('Digest::name_compatible') and oc is True]
+        ln = [tv for tv, oc in views if tv[0] == 'call' and tv[1].endswith('Digest::length_compatible') and oc is True]
+        ln_ok = any(strip(tv[2][0])[0] == 'call' and strip(tv[2][0])[1].endswith('::len') for tv in ln)
+        good = good and split_ok and bool(nm) and ln_ok
         rep.extra['checksum_guards'] = [repr(c)[:120] for c in conds if c.kind == 'bool']
     rep.check(good, 'R3', 'acceptor', w(fs), 'Ok only under name_compatible(name) && length_compatible(value.len()), parts from split_once(\':\')',
               'checksum accepted without both compatibility checks')
-    cl = prog.closures_of(fs)
-    dec_ok = any(any(c.name == 'hex::decode' for c in g.calls) and any(x[0] == 'fnitem' and x[1].endswith('InvalidValue') for x in walk(sl.local(g, 0))) for g in cl)
+    # the decode whose payload becomes `value` has its error wrapped in InvalidValue and handed to `?`: one of the
+    # propagated (residual) results of from_str carries map_err(hex::decode(..), InvalidValue) — directly, inside a
+    # closure run on the same result (and_then / map), or behind a private helper
+    rv = sl.inline_deep(sl.local(fs, 0))
+    dec_ok = False
+    for x in walk(rv):
+        if x[0] == 'residual':
+            for y in carried_values(prog, sl, x[1]):
+                if y[0] == 'call' and y[1] == 'std::result::Result::<T, E>::map_err' and len(y[2]) == 2 and \
+                        any(z[0] == 'call' and z[1] == 'hex::decode' for z in walk(y[2][0])) and \
+                        any(z[0] == 'fnitem' and z[1].endswith('InvalidValue') for z in walk(y[2][1])):
+                    dec_ok = True
+    dec_ok = dec_ok and any(z[0] == 'call' and z[1] == 'hex::decode' for z in walk(val_v))
     rep.check(dec_ok, 'R3', 'hex-error', w(fs), 'hex decode error mapped to InvalidValue and propagated', 'hex decode error is not propagated as InvalidValue')
     # ---- R4 ------------------------------------------------------------------------------------------
     se = prog.find(r'^<%sChecksum<D> as .*Serialize>::serialize$' % CK.replace('::', '::'))
